@@ -218,6 +218,23 @@ DoneErrPairs ==
        MissTok(S.errs[e].k) # "" =>
          \E i \in 1..Len(S.toks) : /\ S.toks[i].ty = MissTok(S.errs[e].k)
                                     /\ S.toks[i].c = S.errs[e].c /\ TokEnd(i) = S.toks[i].c
+\* C11 (design level): on macro-free text the operational model and the declarative reference lexer of
+\* OpenCode.tla agree on tokens (type, channel, extent) and errors (kind, position), when lexing is done.
+\* (The unterminated-datalines tail is left open by the reference: data + terminator must tile it.)
+OpenCodeEq ==
+  (phase = "done" /\ MacroFree(T.cs, T.cc)) =>
+    LET R == RefLex(T.cs, T.cc)
+        ts == S.toks
+        m == StrictLen(R)
+        endOf(i) == IF i < Len(ts) THEN ts[i+1].c ELSE ts[i].c
+    IN /\ IF HasTail(R) THEN Len(ts) = m + 3 ELSE Len(ts) = Len(R.toks)
+       /\ \A i \in 1..m : /\ ts[i].ty = R.toks[i].ty /\ ts[i].ch = R.toks[i].ch
+                           /\ ts[i].c = R.toks[i].s /\ endOf(i) = R.toks[i].e
+       /\ (HasTail(R) => (/\ ts[m+1].ty = "DatalinesData" /\ ts[m+1].c = R.toks[m+1].s
+                           /\ ts[m+2].ty = "SEMI" /\ ts[m+3].ty = "EOF"
+                           /\ \A q \in ts[m+2].c + 1..ts[m+3].c : T.cs[q] = ";"))
+       /\ Len(S.errs) = Len(R.errs)
+       /\ \A i \in 1..Len(R.errs) : S.errs[i].k = R.errs[i].k /\ (R.errs[i].at < 0 \/ S.errs[i].c = R.errs[i].at)
 \* progress (C01): a completed main-loop step never leaves cursor and stack unchanged
 Progress == [][(phase = "lex" /\ phase' = "lex" /\ S' # S) => ~(S'.pos = S.pos /\ S'.modes = S.modes)]_vars
 
